@@ -219,9 +219,35 @@ func c13Snapshots(c *Ctx) {
 		ob := c.Ob("C13.R2", name, fd.Pos())
 		paths, why := c.runPaths(fd)
 		v := c.view(fd)
+		// `switch v := native(ego).(type) { case []any: return v; default: panic(…) }` is `return native(ego).([]any)` (a failing
+		// assertion panics, too): the panicking alternative under the negated test is dropped
+		if why == "" && len(paths) == 2 {
+			for i, p := range paths {
+				o := paths[1-i]
+				pc, oc := p.Conds(), o.Conds()
+				if p.End == "panic" && o.End == "return" && len(pc) == 1 && len(oc) == 1 && len(p.Effects()) == 0 && !pc[0].Truth && oc[0].Truth {
+					op1, T1, ok1 := kindTestOf(pc[0].T)
+					op2, T2, ok2 := kindTestOf(oc[0].T)
+					if ok1 && ok2 && T1 != nil && T2 != nil && types.Identical(T1, T2) && sameTerm(op1, op2) {
+						q := clonePath(o)
+						q.Steps = nil
+						for _, st := range o.Steps {
+							if st.Kind != "cond" {
+								q.Steps = append(q.Steps, st)
+							}
+						}
+						paths = []*Path{q}
+						break
+					}
+				}
+			}
+		}
 		good := why == "" && len(paths) == 1 && paths[0].End == "return" && len(paths[0].Vals) == 1 && len(paths[0].Effects()) == 0
 		if good {
 			t := paths[0].Vals[0]
+			if pr, ok := t.(TProj); ok && pr.K == 0 {
+				t = pr.X // v, ok := native(recv).([]any): the asserted value
+			}
 			if a, ok := t.(TAssert); ok {
 				t = a.X
 			}
